@@ -3,11 +3,56 @@ From Coq Require Import List NArith Arith Bool Lia.
 Import ListNotations.
 From TV Require Import C12.Model C12.ProofsBuf C12.ProofsStream.
 
-Definition Awaited (s : stream) : Prop :=
-  closed s = false -> 0 < bsize (wb s) -> listening s = true.
+(* ---------- frame facts about the connection flag ---------- *)
+Lemma nc_close s : connecting (close_stream s) = false \/ close_stream s = s.
+Proof. unfold close_stream. destruct (closed s); [right; reflexivity|left; reflexivity]. Qed.
 
-Lemma closed_close s : closed (close_stream s) = true.
+Lemma nc_resolve s : connecting (resolve s) = connecting s.
+Proof. unfold resolve. destruct (resolve_loop _ _ _). reflexivity. Qed.
+
+Lemma nc_send_loop : forall fuel s,
+  connecting s = false -> connecting (st_of (send_loop fuel s)) = false.
+Proof.
+  induction fuel as [|f IH]; intros s H; [exact H|].
+  cbn [send_loop]. destruct (bsize (wb s) =? 0); [exact H|].
+  destruct (script s) as [|[k| |] sc].
+  - cbv zeta. destruct (_ =? 0); [exact H|].
+    destruct (advance _ _); try exact H. apply IH. exact H.
+  - cbv zeta. destruct (_ =? 0); [exact H|].
+    destruct (advance _ _); try exact H. apply IH. exact H.
+  - exact H.
+  - simpl st_of. match goal with |- connecting (close_stream ?x) = false => destruct (nc_close x) as [E|E] end.
+    + exact E.
+    + rewrite E. exact H.
+Qed.
+
+Lemma nc_handle_write s : connecting s = false -> connecting (handle_write s) = false.
+Proof.
+  intros H. unfold handle_write. pose proof (nc_send_loop (S (bsize (wb s))) s H) as H'.
+  destruct (send_loop (S (bsize (wb s))) s) as [s'|s'|s']; simpl in H'; auto.
+  rewrite nc_resolve. exact H'.
+Qed.
+
+Lemma closed_close' s : closed (close_stream s) = true.
 Proof. unfold close_stream. destruct (closed s) eqn:E; [exact E|reflexivity]. Qed.
+
+(* after _handle_connect the stream is either closed or no longer connecting; the queue is untouched *)
+Lemma handle_connect_open s :
+  closed (handle_connect s) = false ->
+  connecting (handle_connect s) = false /\ wfut (handle_connect s) = wfut s /\
+  twi (handle_connect s) = twi s /\ listening (handle_connect s) = listening s /\
+  wb (handle_connect s) = wb s.
+Proof.
+  unfold handle_connect. destruct (connecting s) eqn:E.
+  - destruct (conn_ok s).
+    + intros _. repeat split; reflexivity.
+    + intros H. rewrite closed_close' in H. discriminate.
+  - intros _. repeat split; auto.
+Qed.
+
+(* ---------- no lost wake-up ---------- *)
+Definition Awaited (s : stream) : Prop :=
+  closed s = false -> (0 < bsize (wb s) \/ connecting s = true) -> listening s = true.
 
 Lemma Awaited_emit e s : Awaited s -> Awaited (emit e s).
 Proof. intros H; exact H. Qed.
@@ -19,26 +64,39 @@ Proof.
   - assert (X : dead (do_write d s) = false -> Awaited (do_write d s)).
     { intros Hd'. unfold do_write in *. destruct (closed s) eqn:Ho; [exact HA|].
       destruct (is_full s d); [exact HA|].
-      match goal with |- context [handle_write ?s1] => set (s2 := handle_write s1) in * end.
-      destruct (dead s2) eqn:E1; simpl in *; [congruence|].
-      destruct (closed s2) eqn:E2; simpl.
-      - intros Hc. congruence.
-      - intros _ Hb. change (0 < bsize (wb s2)) in Hb.
-        change (listening s2 || (0 <? bsize (wb s2)) = true).
-        apply Nat.ltb_lt in Hb. rewrite Hb. apply orb_true_r. }
-    destruct (dead (do_write d s)) eqn:E; [change (dead (do_write d s) = false) in Hd; congruence|]. apply Awaited_emit. apply X. reflexivity.
+      match goal with |- context [handle_write ?s1] => set (s1' := s1) in * end.
+      destruct (connecting s) eqn:Ecn.
+      - intros _ _. change (listening s = true). apply HA; auto.
+      - set (s2 := handle_write s1') in *.
+        assert (Hc2 : connecting s2 = false) by (apply nc_handle_write; first [exact Ecn|reflexivity]).
+        destruct (dead s2) eqn:E1; simpl in *; [congruence|].
+        destruct (closed s2) eqn:E2; simpl.
+        + intros Hc. congruence.
+        + intros _ Hb. change (0 < bsize (wb s2) \/ connecting s2 = true) in Hb.
+          change (listening s2 || (0 <? bsize (wb s2)) = true).
+          destruct Hb as [Hb|Hb]; [|congruence].
+          apply Nat.ltb_lt in Hb. rewrite Hb. apply orb_true_r. }
+    destruct (dead (do_write d s)) eqn:E; [change (dead (do_write d s) = false) in Hd; congruence|].
+    apply Awaited_emit. apply X. reflexivity.
   - assert (X : dead (do_ready s) = false -> Awaited (do_ready s)).
     { intros Hd'. unfold do_ready in *. destruct (closed s || negb (listening s)); [exact HA|].
-      set (s2 := handle_write (emit (EReady true) s)) in *.
+      set (s1 := handle_connect (emit (EReady true) s)) in *.
+      destruct (closed s1) eqn:Ho1; [intros Hc; congruence|].
+      destruct (handle_connect_open _ Ho1) as (Hc1 & _). fold s1 in Hc1.
+      set (s2 := handle_write s1) in *.
+      assert (Hc2 : connecting s2 = false) by (apply nc_handle_write; exact Hc1).
       destruct (dead s2) eqn:E1; simpl in *; [congruence|].
       destruct (closed s2) eqn:E2; simpl.
-      - intros Hc. congruence.
-      - intros _ Hb. change (0 < bsize (wb s2)) in Hb.
-        change ((0 <? bsize (wb s2)) = true). apply Nat.ltb_lt. exact Hb. }
-    destruct (dead (do_ready s)) eqn:E; [change (dead (do_ready s) = false) in Hd; congruence|]. apply Awaited_emit. apply X. reflexivity.
-  - destruct (dead (close_stream (emit EClose s))) eqn:E; [change (dead (close_stream (emit EClose s)) = false) in Hd; congruence|].
+      + intros Hc. congruence.
+      + intros _ Hb. change (0 < bsize (wb s2) \/ connecting s2 = true) in Hb.
+        change ((0 <? bsize (wb s2)) = true).
+        destruct Hb as [Hb|Hb]; [|congruence]. apply Nat.ltb_lt. exact Hb. }
+    destruct (dead (do_ready s)) eqn:E; [change (dead (do_ready s) = false) in Hd; congruence|].
+    apply Awaited_emit. apply X. reflexivity.
+  - destruct (dead (close_stream (emit EClose s))) eqn:E;
+      [change (dead (close_stream (emit EClose s)) = false) in Hd; congruence|].
     apply Awaited_emit. intros Hc.
-    rewrite closed_close in Hc. discriminate.
+    rewrite closed_close' in Hc. discriminate.
 Qed.
 
 Lemma Awaited_run : forall ops s,
@@ -49,9 +107,11 @@ Proof.
   apply Awaited_do_op; auto. apply HI'.
 Qed.
 
-Theorem awaited t m sc ops : Awaited (run_ops ops (init t m sc)).
+Theorem awaited cn t m sc ops : Awaited (run_ops ops (init_with cn t m sc)).
 Proof.
-  apply Awaited_run; [apply Inv_init|]. intros _ H. simpl in H. lia.
+  apply Awaited_run; [apply Inv_init|]. destruct cn as [ok|]; intros _ H; simpl in *.
+  - reflexivity.
+  - destruct H as [H|H]; [lia|discriminate].
 Qed.
 
 (* ---------- promptness: at operation boundaries every future whose bytes are all out
@@ -130,7 +190,7 @@ Proof.
   - cbv zeta. destruct (_ =? 0); [exact I|]. destruct (advance _ _); try exact I. apply IH.
   - cbv zeta. destruct (_ =? 0); [exact I|]. destruct (advance _ _); try exact I. apply IH.
   - exact I.
-  - apply closed_close.
+  - apply closed_close'.
 Qed.
 
 Lemma send_loop_dead : forall f s0,
@@ -161,7 +221,8 @@ Proof.
   - congruence.
 Qed.
 
-Definition W (s : stream) : Prop := closed s = false -> Sorted_q s /\ Prompt s.
+Definition W (s : stream) : Prop :=
+  closed s = false -> Sorted_q s /\ (connecting s = false -> Prompt s).
 
 Lemma W_do_op o s : dead (do_op o s) = false -> W s -> W (do_op o s).
 Proof.
@@ -174,27 +235,32 @@ Proof.
       assert (HS1 : Sorted_q s1').
       { destruct (HW Ho) as [HS _]. unfold Sorted_q, s1' in *; simpl.
         rewrite map_app. simpl. apply (srt_snoc _ (twi s)); [lia|exact HS]. }
-      destruct (dead (handle_write s1')) eqn:E1; simpl in *; [congruence|].
-      destruct (closed (handle_write s1')) eqn:E2; simpl.
-      - intros Hc. congruence.
-      - intros _. exact (handle_write_prompt s1' HS1 E1 E2). }
+      destruct (connecting s) eqn:Ecn.
+      - intros _. split; [exact HS1|]. intros Hc. simpl in Hc. discriminate.
+      - destruct (dead (handle_write s1')) eqn:E1; simpl in *; [congruence|].
+        destruct (closed (handle_write s1')) eqn:E2; simpl.
+        + intros Hc. congruence.
+        + intros _. destruct (handle_write_prompt s1' HS1 E1 E2) as [A B]. split; auto. }
     destruct (dead (do_write d s)) eqn:E; [change (dead (do_write d s) = false) in Hd; congruence|].
     apply X. reflexivity.
   - assert (X : dead (do_ready s) = false -> W (do_ready s)).
     { intros Hd'. unfold do_ready in *. destruct (closed s || negb (listening s)) eqn:Ec; [exact HW|].
       apply orb_false_iff in Ec as [Ho _].
-      set (s1' := emit (EReady true) s) in *.
-      assert (HS1 : Sorted_q s1') by (apply (HW Ho)).
+      set (s1' := handle_connect (emit (EReady true) s)) in *.
+      destruct (closed s1') eqn:Ho1; [intros Hc; congruence|].
+      destruct (handle_connect_open _ Ho1) as (_ & F1 & F2 & _). fold s1' in F1, F2.
+      assert (HS1 : Sorted_q s1').
+      { unfold Sorted_q. rewrite F1, F2. apply (HW Ho). }
       destruct (dead (handle_write s1')) eqn:E1; simpl in *; [congruence|].
       destruct (closed (handle_write s1')) eqn:E2; simpl.
-      - intros Hc. congruence.
-      - intros _. exact (handle_write_prompt s1' HS1 E1 E2). }
+      + intros Hc. congruence.
+      + intros _. destruct (handle_write_prompt s1' HS1 E1 E2) as [A B]. split; auto. }
     destruct (dead (do_ready s)) eqn:E; [change (dead (do_ready s) = false) in Hd; congruence|].
     apply X. reflexivity.
   - destruct (dead (close_stream (emit EClose s))) eqn:E;
       [change (dead (close_stream (emit EClose s)) = false) in Hd; congruence|].
     intros Hc. change (closed (close_stream (emit EClose s)) = false) in Hc.
-    rewrite closed_close in Hc. discriminate.
+    rewrite closed_close' in Hc. discriminate.
 Qed.
 
 Lemma W_run : forall ops s, Inv s /\ Q s -> W s -> W (run_ops ops s).
@@ -204,11 +270,12 @@ Proof.
   apply W_do_op; auto. apply HI'.
 Qed.
 
-Theorem prompt t m sc ops :
-  let s := run_ops ops (init t m sc) in
-  closed s = false -> Forall (fun p => twd s < fst p) (wfut s).
+(* once the connection is up (or for an accepted/server-side stream, always) *)
+Theorem prompt cn t m sc ops :
+  let s := run_ops ops (init_with cn t m sc) in
+  closed s = false -> connecting s = false -> Forall (fun p => twd s < fst p) (wfut s).
 Proof.
-  intros s Ho. assert (H : W s).
-  { apply W_run; [apply Inv_init|]. intros _. split; [exact I|]. intros _. constructor. }
-  destruct (H Ho) as [_ HP]. apply HP. exact Ho.
+  intros s Ho Hc. assert (H : W s).
+  { apply W_run; [apply Inv_init|]. destruct cn; intros _; (split; [exact I|]); intros _ _; constructor. }
+  destruct (H Ho) as [_ HP]. apply HP; auto.
 Qed.
